@@ -18,7 +18,7 @@ RULE = ("random automata / PDAs / FSTs with JSON-representable state and symbol 
         "states, epsilon transitions, parallel edges, multi-symbol pushes and outputs, no epsilon spellings and no label "
         "separators) round-tripped through to_networkx / from_networkx and compared structurally; random CFGs over "
         "whitespace-free tokens (lower-case variables, capitalised terminals, epsilon productions) round-tripped through "
-        "to_text / from_text and compared by production sets and by the verified membership oracle; random EBNF texts "
+        "to_text / from_text and compared by production sets and by the verified membership oracle; random EBNF texts (several lines per head, empty right-hand sides) "
         "whose boxes are compared, by the verified equivalence oracle, with the union of the alternatives of each "
         "head. Non-trivial: machine with >=2 states and >=2 transitions / grammar with >=2 productions.")
 EXPLANATION = 'Round trips are decided structurally (canonical form of the re-imported object equals that of the original) and, for grammars and recursive automata, by the verified membership / equivalence oracles; the networkx graph container and the json module are exercised, not modelled. The token-level text codec of grammars (Variable.to_text, Terminal.to_text, the component classification of CFG._read_line) is modelled in Lean (Pfl/Model/Codec.lean), proved to round-trip every plain token (read_varToText, read_terToText) and compared with the implementation on random ASCII tokens.'
@@ -118,7 +118,10 @@ def generate(rng, tier):
         for _ in range(rng.randint(1, 5)):
             ast = X.gen_ast(rng, depth=2, escaped=False)
             # mention non-terminals as symbols
-            lines.append([rng.choice(heads), X.render(ast, rng).replace("x1", rng.choice(heads))])
+            body = X.render(ast, rng).replace("x1", rng.choice(heads))
+            if rng.random() < 0.15:
+                body = rng.choice(["", "", " ", "$"])       # an empty right-hand side is the empty word
+            lines.append([rng.choice(heads), body])
         if "S" not in [h for h, _ in lines]:
             lines.append(["S", "a"])
         toks = [gen_token(rng) for _ in range(4)]
@@ -205,7 +208,7 @@ def run_case(case, drv):
                           detail={"heads": heads, "boxes": sorted(str(s.value) for s in rsa.nonterminals)})
         for h in heads:
             bodies = [b for hh, b in lines if hh == h]
-            trees = [outcome(lambda b=b: X.tree_of(Regex(b))) for b in bodies]
+            trees = [(("ok", ["eps"]) if not b.strip() else outcome(lambda b=b: X.tree_of(Regex(b)))) for b in bodies]
             if any(t[0] != "ok" for t in trees):
                 continue
             tree = trees[0][1]
@@ -224,7 +227,7 @@ def run_case(case, drv):
     elif got[0] == "exc" and got[1] != "MisformedRegexError":
         res.violation("from_ebnf", "raised %s" % got[1], detail={"text": text})
     # from_regex
-    b0 = lines[0][1]
+    b0 = lines[0][1] if lines[0][1].strip() else "$"
     got = outcome(lambda: (X.tree_of(Regex(b0)), RecursiveAutomaton.from_regex(Regex(b0), "S")), limit=8.0)
     if got[0] == "ok":
         tree, rsa = got[1]
